@@ -57,6 +57,7 @@ struct Scenario {
     bool destroy_on_other_thread = false;
     int runner_delay_us = 0;
     int deep_chain = 0;                          // length of the deep chain, 0 = none
+    bool fd0_free = false;                       // descriptor 0 is free while the loop runs: its wake-up eventfd gets number 0
     // runtime
     Loop *loop = nullptr;
     std::atomic<uint64_t> executed{0};
@@ -188,15 +189,16 @@ void gen(vh::Rng &r, Scenario &S, vh::Sig &sig) {
         else { acc += 1 + r.below(total / S.nruns + 2); S.exit_after.push_back((int)acc); }
     }
     if (S.deep_chain) S.exit_after[0] = 1 + (int)r.below(20);     // the first run exits while the chain is still young
+    S.fd0_free = r.chance(1, 6);
     S.destroy_on_other_thread = r.chance(1, 2);
     static const int rd[] = {0, 0, 50, 300, 1500};
     S.runner_delay_us = r.pick(rd);
-    sig.add(nsub); sig.add(total); sig.add(S.nruns); sig.add(S.deep_chain);
+    sig.add(nsub); sig.add(total); sig.add(S.nruns); sig.add(S.deep_chain); sig.add(S.fd0_free);
     for (auto &t : S.tasks) { sig.add(t->owner); sig.add(t->entry); sig.add(t->children.size()); sig.add(t->cancels.size()); }
     for (int e : S.exit_after) sig.add(e);
     S.desc = vh::fmt("engine=%s submitters=%d tasks=%llu runs=%d exit_after=[", S.engine.c_str(), nsub, (unsigned long long)total, S.nruns);
     for (int e : S.exit_after) S.desc += vh::fmt("%d,", e);
-    S.desc += vh::fmt("] prerun=%zu gap=%zu destroy_other=%d deep_chain=%d", S.prerun.size(), S.gap.size(), (int)S.destroy_on_other_thread, S.deep_chain);
+    S.desc += vh::fmt("] prerun=%zu gap=%zu destroy_other=%d deep_chain=%d fd0_free=%d", S.prerun.size(), S.gap.size(), (int)S.destroy_on_other_thread, S.deep_chain, (int)S.fd0_free);
 }
 
 struct ProcStat { char state = '?'; unsigned long cpu = 0; };
@@ -251,6 +253,14 @@ void run_scenario(Scenario &S, bool &nontrivial) {
         if (k == 0 && S.runner_delay_us) vc::sleep_us(S.runner_delay_us);
         S.exit_req_tick.store(0);
         S.exit_at.store(S.exit_after[k]);
+        // descriptor value 0 for the loop's wake-up eventfd: stdin is parked on a high number for the duration of the run,
+        // so the eventfd created at the start of runLoop() takes the lowest free number, 0 (nothing else opens descriptors
+        // meanwhile: the submitters only call runInLoop(), the /proc probes run only after a stall)
+        int saved_stdin = -1;
+        if (S.fd0_free) {
+            saved_stdin = fcntl(0, F_DUPFD_CLOEXEC, 200);
+            if (saved_stdin >= 0) { close(0); vh::counter("runs_with_descriptor_0_free_for_the_wakeup_fd"); }
+        }
         std::atomic<int> runner_state{0};
         std::atomic<long> runner_tid{0};
         std::thread runner([&S, k, &runner_state, &runner_tid] {
@@ -316,6 +326,7 @@ void run_scenario(Scenario &S, bool &nontrivial) {
             stalled = 0;
         }
         runner.join();
+        if (saved_stdin >= 0) { dup2(saved_stdin, 0); close(saved_stdin); }
         S.runs[k].exit_req = S.exit_req_tick.load();
         if (k + 1 < S.nruns) vc::sleep_us((long)(vh::mix(S.tasks.size(), k) % 300));   // stopped gap
     }
